@@ -24,13 +24,17 @@ func init() {
 type dispCtx struct {
 	w          *world.World
 	fn         *ssa.Function
-	hcall      ssa.CallInstruction
+	hcall      ssa.CallInstruction   // first handler invocation (the only one on the pinned tree)
+	hcalls     []ssa.CallInstruction // every handler invocation of the dispatcher
+	paramsOf   map[ssa.CallInstruction]*ssa.Call
 	conn       *ssa.Parameter // *net.Conn
 	message    *ssa.Parameter // []byte
 	ctxParam   *ssa.Parameter
 	replay     *ssa.Parameter
 	embedded   *ssa.Parameter
-	gate       *ssa.Call // AuthorizeConnection
+	gate       *ssa.Call // AuthorizeConnection, or the dispatcher's call of a helper that wraps it
+	gateFn     *ssa.Function // the ACL authorization method itself
+	gateArgs   []ssa.Value   // its arguments (recv, conn, cmd, command, subCommand) as values of the dispatcher
 	decode     *ssa.Call // internal.Decode(message)
 	paramsCall *ssa.Call // getHandlerFuncParams
 	logCalls   []*ssa.Call
@@ -42,10 +46,10 @@ func getDisp(w *world.World) (*dispCtx, error) {
 	if err != nil {
 		return nil, err
 	}
-	if len(hcalls) != 1 {
-		return nil, fmt.Errorf("dispatcher %s has %d handler invocations, expected 1", world.FuncName(fn), len(hcalls))
+	if len(hcalls) == 0 {
+		return nil, fmt.Errorf("dispatcher %s has no handler invocation", world.FuncName(fn))
 	}
-	d := &dispCtx{w: w, fn: fn, hcall: hcalls[0], reach: world.Reachable(fn)}
+	d := &dispCtx{w: w, fn: fn, hcall: hcalls[0], hcalls: hcalls, paramsOf: map[ssa.CallInstruction]*ssa.Call{}, reach: world.Reachable(fn)}
 	var bools []*ssa.Parameter
 	for _, p := range fn.Params {
 		switch t := p.Type().(type) {
@@ -112,7 +116,7 @@ func getDisp(w *world.World) (*dispCtx, error) {
 			if d.gate != nil {
 				return nil, fmt.Errorf("dispatcher has more than one authorization call")
 			}
-			d.gate = call
+			d.gate, d.gateFn, d.gateArgs = call, f, call.Call.Args
 		case world.ShortPkg(world.PkgOf(f)) == "internal" && f.Name() == "Decode":
 			d.decode = call
 		case f.Signature.Results().Len() == 1 && world.TypeIs(f.Signature.Results().At(0).Type(), "/internal", "HandlerFuncParams"):
@@ -123,7 +127,145 @@ func getDisp(w *world.World) (*dispCtx, error) {
 			d.logCalls = append(d.logCalls, call)
 		}
 	}
+	if d.gate == nil {
+		d.findGateWrapper()
+	}
+	// the parameter record each handler invocation receives
+	for _, hc := range d.hcalls {
+		for _, a := range hc.Common().Args {
+			if pc, ok := a.(*ssa.Call); ok && pc.Call.StaticCallee() != nil && pc.Call.StaticCallee().Signature.Results().Len() == 1 && world.TypeIs(pc.Call.StaticCallee().Signature.Results().At(0).Type(), "/internal", "HandlerFuncParams") {
+				d.paramsOf[hc] = pc
+			}
+		}
+	}
 	return d, nil
+}
+
+func (d *dispCtx) isHandlerCall(in ssa.Instruction) bool {
+	for _, hc := range d.hcalls {
+		if in == ssa.Instruction(hc) {
+			return true
+		}
+	}
+	return false
+}
+
+// handlerContexts: the distinct context values given to the handler invocations.
+func (d *dispCtx) handlerContexts() []ssa.Value {
+	var out []ssa.Value
+	for _, hc := range d.hcalls {
+		pc := d.paramsOf[hc]
+		if pc == nil {
+			return nil
+		}
+		for _, a := range pc.Call.Args {
+			if world.TypeIs(a.Type(), "context", "Context") {
+				dup := false
+				for _, o := range out {
+					dup = dup || o == a
+				}
+				if !dup {
+					out = append(out, a)
+				}
+			}
+		}
+	}
+	return out
+}
+
+func isAuthorizeFn(f *ssa.Function) bool {
+	return f != nil && f.Signature.Recv() != nil && world.TypeIs(f.Signature.Recv().Type(), "/acl", "ACL") && hasParamType(f, "/internal", "Command") && returnsOnlyError(f)
+}
+
+// findGateWrapper accepts as the gate a dispatcher call of a module helper h(...) error that wraps the
+// ACL authorization method, provided h returning nil implies that the authorization succeeded or a bypass
+// condition (conn==nil, acl==nil, embedded — on h's parameters bound to the dispatcher's) held:
+// every return of h either carries the must-fact "authorized or bypassed", or returns the
+// authorization call's own error.
+func (d *dispCtx) findGateWrapper() {
+	for _, c := range world.Calls(d.fn) {
+		call, ok := c.(*ssa.Call)
+		if !ok {
+			continue
+		}
+		h := call.Call.StaticCallee()
+		if h == nil || h.Blocks == nil || !world.InModule(h) || !returnsOnlyError(h) || len(h.Params) != len(call.Call.Args) {
+			continue
+		}
+		var inner *ssa.Call
+		n := 0
+		for _, c2 := range world.Calls(h) {
+			if ic, ok := c2.(*ssa.Call); ok && isAuthorizeFn(ic.Call.StaticCallee()) {
+				inner = ic
+				n++
+			}
+		}
+		if n != 1 {
+			continue
+		}
+		toOuter := func(v ssa.Value) ssa.Value {
+			if p, ok := v.(*ssa.Parameter); ok {
+				for i, q := range h.Params {
+					if q == p {
+						return call.Call.Args[i]
+					}
+				}
+			}
+			return v
+		}
+		var hconn, hemb ssa.Value
+		for i, q := range h.Params {
+			if call.Call.Args[i] == ssa.Value(d.conn) {
+				hconn = q
+			}
+			if call.Call.Args[i] == ssa.Value(d.embedded) {
+				hemb = q
+			}
+		}
+		edges := func(b *ssa.BasicBlock, si int) world.Facts {
+			return gateEdgeFacts(b, si, inner, hconn, hemb)
+		}
+		must := world.Must(h, edges, nil, nil)
+		good := true
+		for _, ret := range world.Returns(h) {
+			rv := world.RetVals(ret)
+			if len(rv) != 1 {
+				good = false
+				continue
+			}
+			if world.FactsAt(must, ret, nil, nil)&1 != 0 {
+				continue
+			}
+			if src := world.ErrSource(rv[0]); src == ssa.Value(inner) {
+				continue // returns the authorization's own verdict
+			}
+			if world.IsNilConst(rv[0]) || !isFreshError(rv[0]) {
+				good = false
+			}
+		}
+		if !good {
+			continue
+		}
+		if d.gate != nil {
+			d.gate = nil // ambiguous: fail closed
+			return
+		}
+		d.gate, d.gateFn = call, inner.Call.StaticCallee()
+		d.gateArgs = nil
+		for _, a := range inner.Call.Args {
+			d.gateArgs = append(d.gateArgs, toOuter(a))
+		}
+	}
+}
+
+// isFreshError: v is the result of a call that constructs an error (errors.New, fmt.Errorf): known non-nil.
+func isFreshError(v ssa.Value) bool {
+	c, ok := v.(*ssa.Call)
+	if !ok {
+		return false
+	}
+	f := c.Call.StaticCallee()
+	return f != nil && (f.String() == "errors.New" || f.String() == "fmt.Errorf")
 }
 
 func hasParamType(f *ssa.Function, pkgSuffix, name string) bool {
@@ -251,22 +393,30 @@ func isAclLoad(v ssa.Value) bool {
 }
 
 func (d *dispCtx) gateEdges(b *ssa.BasicBlock, si int) world.Facts {
+	return gateEdgeFacts(b, si, d.gate, d.conn, d.embedded)
+}
+
+// gateEdgeFacts: fact 1 on the success edge of the gate call and on the bypass edges
+// conn==nil / acl==nil / embedded.
+func gateEdgeFacts(b *ssa.BasicBlock, si int, gate *ssa.Call, conn, embedded ssa.Value) world.Facts {
 	const OK world.Facts = 1
 	iff := world.IfOf(b)
 	if iff == nil {
 		return 0
 	}
-	if d.gate != nil && world.ErrNilEdge(b, func(v ssa.Value) bool { return v == ssa.Value(d.gate) }) == si {
+	if gate != nil && world.ErrNilEdge(b, func(v ssa.Value) bool { return v == ssa.Value(gate) }) == si {
 		return OK
 	}
-	if iff.Cond == ssa.Value(d.embedded) && si == 0 {
-		return OK
-	}
-	if u, ok := iff.Cond.(*ssa.UnOp); ok && u.Op == token.NOT && u.X == ssa.Value(d.embedded) && si == 1 {
-		return OK
+	if embedded != nil {
+		if iff.Cond == embedded && si == 0 {
+			return OK
+		}
+		if u, ok := iff.Cond.(*ssa.UnOp); ok && u.Op == token.NOT && u.X == embedded && si == 1 {
+			return OK
+		}
 	}
 	if x, eq, ok := world.NilTest(iff.Cond); ok {
-		if x == ssa.Value(d.conn) || isAclLoad(x) {
+		if (conn != nil && x == conn) || isAclLoad(x) {
 			if (eq && si == 0) || (!eq && si == 1) {
 				return OK
 			}
@@ -306,7 +456,7 @@ func (d *dispCtx) sinks() []sink {
 				if d.gate != nil && in == ssa.Instruction(d.gate) {
 					continue
 				}
-				if in == ssa.Instruction(d.hcall) {
+				if d.isHandlerCall(in) {
 					out = append(out, sink{in, "handler()", "invocation of the command handler"})
 					continue
 				}
@@ -378,7 +528,7 @@ func ruleD1(w *world.World, r *report.RuleResult) {
 		}
 	}
 	// the gate's inputs are the request's: decoded command, looked-up command, sub-command
-	args := d.gate.Call.Args // recv, conn, cmd, command, subCommand
+	args := d.gateArgs // recv, conn, cmd, command, subCommand
 	key := fname + "|gate-args"
 	var bad []string
 	if len(args) != 5 {
@@ -393,33 +543,35 @@ func ruleD1(w *world.World, r *report.RuleResult) {
 	} else if len(d.decode.Call.Args) != 1 || d.decode.Call.Args[0] != ssa.Value(d.message) {
 		bad = append(bad, "the decoded bytes are not the request message")
 	}
-	if d.paramsCall != nil {
-		okCmd := false
-		for _, a := range d.paramsCall.Call.Args {
-			if d.canon(a) == d.canon(args[2]) {
-				okCmd = true
+	auth := map[ssa.Value]bool{d.canon(args[3]): true, d.canon(args[4]): true}
+	for _, hc := range d.hcalls {
+		if pc := d.paramsOf[hc]; pc != nil {
+			okCmd := false
+			for _, a := range pc.Call.Args {
+				if d.canon(a) == d.canon(args[2]) {
+					okCmd = true
+				}
+			}
+			if !okCmd {
+				bad = append(bad, "the token slice given to the handler at "+w.InstrPos(hc)+" differs from the one authorized")
+			}
+		} else {
+			bad = append(bad, "handler parameter construction not found for the invocation at "+w.InstrPos(hc))
+		}
+		// handler origins ⊆ {command, subCommand} authorized
+		ho := originsThroughPhi(hc.Common().Value)
+		for o := range ho {
+			c := o
+			if a := allocHolding(d.fn, o); a != nil {
+				c = a
+			}
+			if !auth[c] {
+				bad = append(bad, fmt.Sprintf("the handler invoked at %s comes from %s, which is not the command/sub-command value passed to the gate", w.InstrPos(hc), o.Name()))
 			}
 		}
-		if !okCmd {
-			bad = append(bad, "the token slice given to the handler differs from the one authorized")
+		if len(ho) == 0 {
+			bad = append(bad, "cannot trace the handler invoked at "+w.InstrPos(hc))
 		}
-	} else {
-		bad = append(bad, "handler parameter construction not found")
-	}
-	// handler origins ⊆ {command, subCommand} authorized
-	ho := originsThroughPhi(d.hcall.Common().Value)
-	auth := map[ssa.Value]bool{d.canon(args[3]): true, d.canon(args[4]): true}
-	for o := range ho {
-		c := o
-		if a := allocHolding(d.fn, o); a != nil {
-			c = a
-		}
-		if !auth[c] {
-			bad = append(bad, fmt.Sprintf("the invoked handler comes from %s, which is not the command/sub-command value passed to the gate", o.Name()))
-		}
-	}
-	if len(ho) == 0 {
-		bad = append(bad, "cannot trace the invoked handler")
 	}
 	if len(bad) > 0 {
 		r.Fail(key, w.InstrPos(d.gate), strings.Join(bad, "; "))
@@ -517,7 +669,14 @@ func ruleD2(w *world.World, r *report.RuleResult) {
 		NR                           // not replay
 		WR                           // is a write command
 	)
-	hv := d.hcall.(ssa.Value)
+	isHV := func(v ssa.Value) bool {
+		for _, hc := range d.hcalls {
+			if v == hc.(ssa.Value) {
+				return true
+			}
+		}
+		return false
+	}
 	isLog := func(in ssa.Instruction) bool {
 		for _, c := range d.logCalls {
 			if in == ssa.Instruction(c) {
@@ -532,7 +691,7 @@ func ruleD2(w *world.World, r *report.RuleResult) {
 			return 0
 		}
 		var f world.Facts
-		if world.ErrNilEdge(b, func(v ssa.Value) bool { return v == hv }) == si {
+		if world.ErrNilEdge(b, isHV) == si {
 			f |= HOK
 		}
 		if iff.Cond == ssa.Value(d.replay) {
@@ -562,6 +721,12 @@ func ruleD2(w *world.World, r *report.RuleResult) {
 	n := 0
 	for _, ret := range world.Returns(d.fn) {
 		f := world.FactsAt(in, ret, gen, nil)
+		// `return handler(...)`: the handler's own verdict is the result, success included
+		if rv := world.RetVals(ret); len(rv) > 0 {
+			if src := world.ErrSource(rv[len(rv)-1]); src != nil && isHV(src) && src.(ssa.Instruction).Block() == ret.Block() {
+				f |= HOK
+			}
+		}
 		if f&HOK == 0 {
 			continue
 		}
@@ -610,16 +775,12 @@ func ruleD2(w *world.World, r *report.RuleResult) {
 		}
 		// (e) database
 		key := fname + "|e:log-database" + sfx
-		if (dbArg == nil && dbCtx == nil) || d.paramsCall == nil {
+		hctxs := d.handlerContexts()
+		if (dbArg == nil && dbCtx == nil) || len(hctxs) != 1 {
 			r.Und(key, pos, "cannot identify the database operand of the AOF append / the handler's context")
 			continue
 		}
-		var hctx ssa.Value
-		for _, a := range d.paramsCall.Call.Args {
-			if world.TypeIs(a.Type(), "context", "Context") {
-				hctx = a
-			}
-		}
+		hctx := hctxs[0]
 		vals := dbContextValues(hctx, "Database")
 		if dbCtx != nil && dbCtx == hctx {
 			r.OK(key, pos, "database operand is read back (inside the logging helper) from the handler's context (key \"Database\")")
@@ -960,11 +1121,16 @@ func ruleD4(w *world.World, r *report.RuleResult) {
 		return 0
 	}
 	in := world.Must(d.fn, eg, nil, nil)
-	f := world.FactsAt(in, d.hcall, nil, nil)
-	if f&LOCAL != 0 {
-		r.OK(fname+"|b:local-exec-guard", w.InstrPos(d.hcall), "handler invoked only over an edge where isInCluster() is false or the command's Sync flag is false")
-	} else {
-		r.Fail(fname+"|b:local-exec-guard", w.InstrPos(d.hcall), "the handler can be invoked locally for a synced command while the node is in a cluster: a (possibly non-leader) node applies a client write without replication")
+	for i, hc := range d.hcalls {
+		key := fname + "|b:local-exec-guard"
+		if i > 0 {
+			key += fmt.Sprintf("#%d", i+1)
+		}
+		if world.FactsAt(in, hc, nil, nil)&LOCAL != 0 {
+			r.OK(key, w.InstrPos(hc), "handler invoked only over an edge where isInCluster() is false or the command's Sync flag is false")
+		} else {
+			r.Fail(key, w.InstrPos(hc), "the handler can be invoked locally for a synced command while the node is in a cluster: a (possibly non-leader) node applies a client write without replication")
+		}
 	}
 	// (c) raft apply only on the leader; forward only when enabled
 	nApply, nFwd := 0, 0
@@ -1142,17 +1308,69 @@ func pairLeaks(w *world.World, fn *ssa.Function, set ssa.Instruction, isClear fu
 	return leaks
 }
 
+// flagWrappers: module functions that only set (resp. only clear) an *InProgress atomic flag, so that
+// a call of one of them is the set (resp. clear) event at the caller (startSnapshot/finishSnapshot style
+// helpers, or a set/clear extracted from the function that used to contain it).
+func flagWrappers(w *world.World) (setters, clearers map[*ssa.Function]string) {
+	setters, clearers = map[*ssa.Function]string{}, map[*ssa.Function]string{}
+	for _, fn := range w.ModFns {
+		sets, clears := map[string]bool{}, map[string]bool{}
+		for _, f2 := range append([]*ssa.Function{fn}, fn.AnonFuncs...) {
+			for _, b := range f2.Blocks {
+				for _, in := range b.Instrs {
+					if field, val, ok := atomicBoolStore(in); ok && strings.HasSuffix(field, "InProgress") {
+						if val {
+							sets[field] = true
+						} else {
+							clears[field] = true
+						}
+					}
+				}
+			}
+		}
+		for f := range sets {
+			if !clears[f] && len(sets) == 1 {
+				setters[fn] = f
+			}
+		}
+		for f := range clears {
+			if !sets[f] && len(clears) == 1 {
+				clearers[fn] = f
+			}
+		}
+	}
+	return
+}
+
 func ruleD8(w *world.World, r *report.RuleResult) {
+	setters, clearers := flagWrappers(w)
+	// flagEvent: (field, isSet) for a direct atomic store or a static call of a set/clear wrapper
+	flagEvent := func(in ssa.Instruction) (string, bool, bool) {
+		if field, val, ok := atomicBoolStore(in); ok && strings.HasSuffix(field, "InProgress") {
+			return field, val, true
+		}
+		if c, ok := in.(ssa.CallInstruction); ok {
+			if f := c.Common().StaticCallee(); f != nil {
+				if field, ok := setters[f]; ok {
+					return field, true, true
+				}
+				if field, ok := clearers[f]; ok {
+					return field, false, true
+				}
+			}
+		}
+		return "", false, false
+	}
 	for _, fn := range w.ModFns {
 		for _, b := range fn.Blocks {
 			for _, in := range b.Instrs {
-				// atomic flag Store(true) paired with Store(false) of the same field in the same function
-				if field, val, ok := atomicBoolStore(in); ok && val && strings.HasSuffix(field, "InProgress") {
+				// flag set (directly or through a setter helper) paired with the clear of the same field in the same function
+				if field, val, ok := flagEvent(in); ok && val {
 					if _, isDefer := in.(*ssa.Defer); isDefer {
 						continue
 					}
 					isClear := func(x ssa.Instruction) bool {
-						f2, v2, ok2 := atomicBoolStore(x)
+						f2, v2, ok2 := flagEvent(x)
 						return ok2 && f2 == field && !v2
 					}
 					hasClear := false
